@@ -2,6 +2,7 @@ package ana
 
 import (
 	_ "embed"
+	"encoding/json"
 	"fmt"
 	"go/ast"
 	"go/token"
@@ -923,4 +924,335 @@ func ListFuncs(p *Prog) []string {
 	}
 	sort.Strings(out)
 	return out
+}
+
+// ---- local names ---------------------------------------------------------------------
+//
+// The rules name locals, parameters and receivers of the anchor functions as they are
+// called on the pinned tree ("udpLayer.Length", "c.prev.cTxTime"). Renaming such a
+// variable does not change behaviour. Before analysis the variables of every function
+// that existed on the pinned tree are therefore given back their pinned names, in the
+// same in-memory overlay: receiver, parameters and results are matched by position,
+// locals by (type, ordinal among the locals of that type in declaration order).
+
+//go:embed known_locals.json
+var knownLocalsJSON []byte
+
+// LocalEntry describes one variable of a function.
+type LocalEntry struct {
+	Kind string `json:"k"` // recv, param, result, local
+	Idx  int    `json:"i"` // position (recv/param/result) or ordinal among same-typed locals
+	Type string `json:"t"`
+	Name string `json:"n"`
+}
+
+var knownLocals = func() map[string][]LocalEntry {
+	m := map[string][]LocalEntry{}
+	if len(knownLocalsJSON) > 0 {
+		_ = json.Unmarshal(knownLocalsJSON, &m)
+	}
+	return m
+}()
+
+func typeKey(t types.Type) string {
+	return types.TypeString(stripParamNames(t), func(p *types.Package) string { return p.Path() })
+}
+
+// stripParamNames removes the parameter names of (unnamed) function types, which are not part of the type's identity.
+func stripParamNames(t types.Type) types.Type {
+	switch x := t.(type) {
+	case *types.Signature:
+		strip := func(tp *types.Tuple) *types.Tuple {
+			var vs []*types.Var
+			for i := 0; i < tp.Len(); i++ {
+				vs = append(vs, types.NewVar(0, nil, "", stripParamNames(tp.At(i).Type())))
+			}
+			return types.NewTuple(vs...)
+		}
+		return types.NewSignatureType(nil, nil, nil, strip(x.Params()), strip(x.Results()), x.Variadic())
+	case *types.Pointer:
+		return types.NewPointer(stripParamNames(x.Elem()))
+	case *types.Slice:
+		return types.NewSlice(stripParamNames(x.Elem()))
+	case *types.Array:
+		return types.NewArray(stripParamNames(x.Elem()), x.Len())
+	case *types.Map:
+		return types.NewMap(stripParamNames(x.Key()), stripParamNames(x.Elem()))
+	case *types.Chan:
+		return types.NewChan(x.Dir(), stripParamNames(x.Elem()))
+	}
+	return t
+}
+
+// funcLocals lists the variables of fd in a canonical order together with their objects.
+func funcLocals(info *types.Info, fd *ast.FuncDecl) ([]LocalEntry, []types.Object) {
+	var es []LocalEntry
+	var objs []types.Object
+	seen := map[types.Object]bool{}
+	add := func(kind string, idx int, o types.Object) {
+		if o == nil || seen[o] || o.Name() == "_" || o.Name() == "" {
+			return
+		}
+		seen[o] = true
+		es = append(es, LocalEntry{Kind: kind, Idx: idx, Type: typeKey(o.Type()), Name: o.Name()})
+		objs = append(objs, o)
+	}
+	fields := func(kind string, fl *ast.FieldList) {
+		if fl == nil {
+			return
+		}
+		i := 0
+		for _, f := range fl.List {
+			if len(f.Names) == 0 {
+				i++
+				continue
+			}
+			for _, nm := range f.Names {
+				add(kind, i, info.Defs[nm])
+				i++
+			}
+		}
+	}
+	fields("recv", fd.Recv)
+	fields("param", fd.Type.Params)
+	fields("result", fd.Type.Results)
+	if fd.Body == nil {
+		return es, objs
+	}
+	ord := map[string]int{}
+	local := func(o types.Object) {
+		v, ok := o.(*types.Var)
+		if !ok || v.IsField() || seen[o] || o.Name() == "_" {
+			return
+		}
+		k := typeKey(o.Type())
+		add("local", ord[k], o)
+		ord[k]++
+	}
+	ast.Inspect(fd.Body, func(x ast.Node) bool {
+		switch y := x.(type) {
+		case *ast.Ident:
+			if o := info.Defs[y]; o != nil {
+				local(o)
+			}
+		case *ast.TypeSwitchStmt:
+			// the symbolic variable of a type switch: one implicit object per clause, one name
+			if as, ok := y.Assign.(*ast.AssignStmt); ok && len(as.Lhs) == 1 {
+				for _, cc := range y.Body.List {
+					if o := info.Implicits[cc]; o != nil {
+						local(o)
+					}
+				}
+			}
+		}
+		return true
+	})
+	return es, objs
+}
+
+// ListLocals renders the table for the current tree (used to produce known_locals.json).
+func ListLocals(p *Prog) map[string][]LocalEntry {
+	out := map[string][]LocalEntry{}
+	for _, pk := range p.Pkgs {
+		if !strings.HasPrefix(pk.PkgPath, ModPath) {
+			continue
+		}
+		for _, f := range pk.Syntax {
+			for _, d := range f.Decls {
+				fd, ok := d.(*ast.FuncDecl)
+				if !ok {
+					continue
+				}
+				fn, ok := pk.TypesInfo.Defs[fd.Name].(*types.Func)
+				if !ok {
+					continue
+				}
+				es, _ := funcLocals(pk.TypesInfo, fd)
+				out[fn.FullName()] = es
+			}
+		}
+	}
+	return out
+}
+
+// RenameBackOverlay gives the variables of pinned functions their pinned names.
+func RenameBackOverlay(pkgs []*packages.Package, current map[string][]byte) (map[string][]byte, []string) {
+	out := map[string][]byte{}
+	var log []string
+	for _, pk := range pkgs {
+		if !strings.HasPrefix(pk.PkgPath, ModPath) || pk.TypesInfo == nil {
+			continue
+		}
+		info := pk.TypesInfo
+		for _, f := range pk.Syntax {
+			fname := pk.Fset.Position(f.Pos()).Filename
+			src, ok := current[fname]
+			if !ok {
+				b, err := os.ReadFile(fname)
+				if err != nil {
+					continue
+				}
+				src = b
+			}
+			rename := map[types.Object]string{}
+			for _, d := range f.Decls {
+				fd, ok := d.(*ast.FuncDecl)
+				if !ok || fd.Body == nil {
+					continue
+				}
+				fn, ok := info.Defs[fd.Name].(*types.Func)
+				if !ok {
+					continue
+				}
+				pinned, ok := knownLocals[fn.FullName()]
+				if !ok {
+					continue
+				}
+				cur, objs := funcLocals(info, fd)
+				// receiver / parameters / results: by position and type. Locals: per type, variables that
+				// still carry a pinned name keep it; the remaining ones are matched in declaration order.
+				want := map[string]string{}
+				pinnedLocals := map[string][]string{} // type -> pinned names in order
+				for _, e := range pinned {
+					if e.Kind == "local" {
+						pinnedLocals[e.Type] = append(pinnedLocals[e.Type], e.Name)
+					} else {
+						want[fmt.Sprintf("%s|%d|%s", e.Kind, e.Idx, e.Type)] = e.Name
+					}
+				}
+				local := map[types.Object]string{}
+				taken := map[string]bool{}
+				curLocals := map[string][]int{} // type -> indices into cur
+				for i, e := range cur {
+					if e.Kind == "local" {
+						curLocals[e.Type] = append(curLocals[e.Type], i)
+						continue
+					}
+					nm := e.Name
+					if w, ok := want[fmt.Sprintf("%s|%d|%s", e.Kind, e.Idx, e.Type)]; ok {
+						nm = w
+					}
+					local[objs[i]] = nm
+				}
+				pinnedHas := map[types.Object]bool{}
+				for tk, idxs := range curLocals {
+					avail := map[string]int{}
+					for _, nm := range pinnedLocals[tk] {
+						avail[nm]++
+					}
+					var rest []int
+					for _, i := range idxs {
+						if avail[cur[i].Name] > 0 {
+							avail[cur[i].Name]--
+							local[objs[i]] = cur[i].Name
+							pinnedHas[objs[i]] = true
+						} else {
+							rest = append(rest, i)
+						}
+					}
+					var restPinned []string
+					used := map[string]int{}
+					for _, i := range idxs {
+						if pinnedHas[objs[i]] {
+							used[cur[i].Name]++
+						}
+					}
+					for _, nm := range pinnedLocals[tk] {
+						if used[nm] > 0 {
+							used[nm]--
+							continue
+						}
+						restPinned = append(restPinned, nm)
+					}
+					for k, i := range rest {
+						if k < len(restPinned) {
+							local[objs[i]] = restPinned[k]
+							pinnedHas[objs[i]] = true
+						} else {
+							local[objs[i]] = cur[i].Name
+						}
+					}
+				}
+				// a variable without a pinned counterpart must not carry a name that a renamed one now takes
+				changed := false
+				for i, e := range cur {
+					if local[objs[i]] != e.Name {
+						changed = true
+						taken[local[objs[i]]] = true
+					}
+				}
+				if !changed {
+					continue
+				}
+				for i, e := range cur {
+					if local[objs[i]] == e.Name && taken[e.Name] && !pinnedHas[objs[i]] && e.Kind == "local" {
+						local[objs[i]] = e.Name + "_x"
+					}
+				}
+				for o, nm := range local {
+					if nm != o.Name() {
+						rename[o] = nm
+					}
+				}
+				log = append(log, fmt.Sprintf("renamed locals of %s back to their pinned names", fn.FullName()))
+			}
+			if len(rename) == 0 {
+				continue
+			}
+			var edits []textEdit
+			seenOff := map[int]bool{}
+			ast.Inspect(f, func(x ast.Node) bool {
+				id, ok := x.(*ast.Ident)
+				if !ok {
+					return true
+				}
+				var o types.Object
+				if d := info.Defs[id]; d != nil {
+					o = d
+				} else if u := info.Uses[id]; u != nil {
+					o = u
+				}
+				if nm, ok := rename[o]; ok && o != nil {
+					off := pk.Fset.Position(id.Pos()).Offset
+					if !seenOff[off] {
+						seenOff[off] = true
+						edits = append(edits, textEdit{off, off + len(id.Name), nm})
+					}
+				}
+				return true
+			})
+			// type switch guards: `switch v := x.(type)` defines implicit per-clause objects
+			ast.Inspect(f, func(x ast.Node) bool {
+				ts, ok := x.(*ast.TypeSwitchStmt)
+				if !ok {
+					return true
+				}
+				as, ok := ts.Assign.(*ast.AssignStmt)
+				if !ok || len(as.Lhs) != 1 {
+					return true
+				}
+				id, ok := as.Lhs[0].(*ast.Ident)
+				if !ok {
+					return true
+				}
+				for _, cc := range ts.Body.List {
+					if o := info.Implicits[cc]; o != nil {
+						if nm, ok := rename[o]; ok {
+							off := pk.Fset.Position(id.Pos()).Offset
+							if !seenOff[off] {
+								seenOff[off] = true
+								edits = append(edits, textEdit{off, off + len(id.Name), nm})
+							}
+							break
+						}
+					}
+				}
+				return true
+			})
+			if len(edits) > 0 {
+				out[fname] = applyEdits(src, edits)
+			}
+		}
+	}
+	return out, log
 }
